@@ -1060,7 +1060,12 @@ class Executor:
         if isinstance(v, (tuple, list, str, range)):
             return len(v)
         if is_seq(v):
-            return z3.Length(v)
+            if z3.is_const(v) and v.decl().kind() == z3.Z3_OP_UNINTERPRETED:
+                return z3.Length(v)
+            # name the length of a compound sequence expression: arithmetic over a plain integer is much easier for the solver
+            L = z3.Int("len#%d" % len(s.pc))
+            s.pc.append(L == z3.Length(v))
+            return L
         if isinstance(v, Obj):
             m = self.attr_models.get((v.cls, "__len__"))
             if m is not None:
@@ -1279,4 +1284,20 @@ def prove(state, goal, extra=(), timeout_ms=10000):
         return "proved", None
     if r == z3.sat:
         return "refuted", s.model()
+    # second solver: cvc5 (sequence / string reasoning with --strings-exp decides many queries z3 leaves open)
+    c = cvc5_check(s, 90.0)
+    if c == "unsat":
+        return "proved-cvc5", None
     return "unknown", None
+
+
+def cvc5_check(solver, timeout_s):
+    import subprocess
+    smt = "(set-logic ALL)\n" + solver.to_smt2()
+    try:
+        p = subprocess.run(["/usr/bin/cvc5", "--lang=smt2", "--strings-exp", "--tlimit=%d" % int(timeout_s * 1000), "-"], input=smt, text=True, capture_output=True,
+                           timeout=timeout_s + 5)
+        out = p.stdout.strip().splitlines()
+        return out[0] if out else "unknown"
+    except Exception:
+        return "unknown"
